@@ -59,6 +59,12 @@ class Prop(BaseProp):
             if home_has_cfg:
                 os.makedirs(os.path.join(home, ".config", "cminx"))
             tree = gen_tree(rng, max_depth=rng.choice([0, 1, 3]), rich=True, case_twins=rng.random() < 0.3)
+            if rng.random() < 0.25:
+                # some files use CRLF line endings (Windows checkout): stdout and -o must still agree byte for byte
+                for f_ in list(tree.files):
+                    if f_.lower().endswith(".cmake") and rng.random() < 0.5:
+                        tree.files[f_] = tree.files[f_].replace("\n", "\r\n")
+                res.count("trees_with_crlf_files")
             linked = rng.random() < 0.3
             if linked:
                 tree.files["linked_in.cmake"] = cmake_text("linked_in.cmake", rich=True)
@@ -102,6 +108,21 @@ class Prop(BaseProp):
                 return res
             self.judge_events(res, sb, home, None, fr0, wit, "stdout-mode", home_has_cfg)
             os.makedirs(os.path.join(home, ".config", "cminx"), exist_ok=True) if False else None
+            # the output directory may already hold pages of an earlier, longer revision of the same files
+            if outmode == "prepopulated" and rng.random() < 0.5:
+                saved = {}
+                for f_ in [x for x in tree.files if x.lower().endswith(".cmake")]:
+                    pth = os.path.join(inp, f_)
+                    if os.path.islink(pth):
+                        continue
+                    saved[pth] = open(pth, "rb").read()
+                    with open(pth, "ab") as fh:
+                        fh.write(b"\n#[[[\n# removed in the next revision " + b"x" * 200 + b"\n#]]\nfunction(removed_later a b)\nendfunction()\n")
+                runner.run_main(base + ["-o", out_arg], cwd=work, home=home)
+                for pth, data in saved.items():
+                    with open(pth, "wb") as fh:
+                        fh.write(data)
+                res.count("output_dir_filled_by_earlier_longer_revision")
             # ---------- run 2: -o
             home_state = os.path.isdir(os.path.join(home, ".config", "cminx"))
             fr = fsrun.run_monitored(sb, base + ["-o", out_arg], work, home, order=fsrun.make_order(rng, rng.choice(fsrun.ORDER_MODES[:4])), snapshot_root=sb)
@@ -141,7 +162,7 @@ class Prop(BaseProp):
                         res.violate("page-missing-in-output-run", os.path.relpath(p, out_abs), wit2)
                         ok = False
                         continue
-                    t.append(open(p, encoding="utf-8").read())
+                    t.append(open(p, encoding="utf-8", newline="").read())
                 texts.append(t)
             if ok:
                 rest = fr0.outcome.stdout
